@@ -160,3 +160,54 @@ func chunkShape(h *rt.H, c *codec) {
 func CHUNK_Shape_cborl(h *rt.H)  { chunkShape(h, cborCodec) }
 func CHUNK_Shape_ubjson(h *rt.H) { chunkShape(h, ubjsonCodec) }
 func CHUNK_Shape_json(h *rt.H)   { chunkShape(h, jsonCodec) }
+
+// CHUNK_JSONLong (C02, C04, C15): a long token (string value or key, L bytes, beyond
+// the sizes at which the parser grows, keeps or drops its literal buffer) cut by a
+// chunk boundary, followed by further tokens of every kind (key, string, escaped
+// string, number) in the same document and by a second document: the chunked run
+// reports what the one-shot run reports.
+func CHUNK_JSONLong(h *rt.H) {
+	L := []int{100, 600, 1100, 4200}[h.Choose("L", 0, h.Param("MAXL", 3))]
+	long := make([]byte, L)
+	copy(long, letters(h, "s", 1))
+	for i := 1; i < L; i++ {
+		long[i] = byte('a' + i%26)
+	}
+	esc := h.Choose("esc", 0, 1) == 1
+	if esc {
+		long[L/2] = '\\'
+		long[L/2+1] = 'n'
+	}
+	var doc []byte
+	q := func(b []byte) []byte { return append(append([]byte{'"'}, b...), '"') }
+	switch h.Choose("shape", 0, 2) {
+	case 0: // long string value, then key, string, escaped key, number
+		doc = append(append([]byte(`{"a":`), q(long)...), []byte(`,"b":"x","c\t":12,"d":"A"}`)...)
+	case 1: // long key
+		doc = append(append([]byte(`{`), q(long)...), []byte(`:1,"b":[true,"y\n"]}`)...)
+	case 2: // long string in an array followed by strings
+		doc = append(append([]byte(`[`), q(long)...), []byte(`,"b","c\\",3.5]`)...)
+	}
+	doc = append(doc, []byte(` {"k":"v"}`)...)
+	n := len(doc)
+	var cuts []int
+	switch h.Choose("cuts", 0, 3) {
+	case 0:
+		cuts = []int{8}
+	case 1:
+		cuts = []int{L / 2, L/2 + 1}
+	case 2:
+		cuts = []int{L / 3, L + 9}
+	case 3:
+		for i := 512; i < n; i += 512 {
+			cuts = append(cuts, i)
+		}
+	}
+	mask := make([]bool, n)
+	for _, c := range cuts {
+		if c > 0 && c < n {
+			mask[c-1] = true
+		}
+	}
+	chunkCheck(h, jsonCodec, doc, mask)
+}
